@@ -113,38 +113,41 @@ def appendBlock (plan : List Step) (block : List Step) : List Step :=
 
 /-! ### the join skeleton -/
 
-inductive Operand where
-  /-- a table: `cte` = it names a CTE (then the step is a `SubSelectStep` on the CTE result);
-  `dataConds` = for each `=` condition of its ON clause that `get_filters_from_join_conditions`
-  keeps as a data condition, the index (`TableInfo.index`) of the *other* table;
-  `pre` = results of already planned steps referenced from its fetch query (CTE result,
-  `Parameter(Result)` of nested selects pushed into its WHERE) -/
-  | table (cte : Bool) (dataConds : List Nat) (pre : List Nat)
-  /-- a model; `psize` = `partition_size` is among the USING parameters that apply to it -/
-  | predictor (ts psize : Bool)
-  /-- a sub-select / native query / data node in FROM, planned by `planner.plan_select`:
-  the steps that call appends (`block`) and which of them it returns (`ret`) -/
-  | subselect (aliased : Bool) (block : List Step) (ret : Nat)
-  deriving Repr
-
-inductive JT where
-  | leaf (o : Operand)
-  | join (l r : JT)
-  /-- a FROM node that is neither `Identifier` nor `Join` after `replace_subselects` -/
-  | bad
-  deriving Repr
-
-inductive Item where
-  | op (idx : Nat) (o : Operand)
-  | jn
-  deriving Repr
-
 inductive Err where
   | planning (msg : String)
   | notImpl (msg : String)
   /-- an exception that is neither `PlanningException` nor `NotImplementedError` -/
   | internal (msg : String)
   deriving Repr, DecidableEq
+
+/-- a planner call: extends the plan and returns the `step_num` of the step it returns, or raises -/
+abbrev Planner := List Step → Except Err (List Step × SNum)
+
+/-- a planner that appends a fixed block and returns its `ret`-th step (used for hand-written examples) -/
+def blockPlanner (block : List Step) (ret : Nat) : Planner :=
+  fun plan => .ok (appendBlock plan block, .top (plan.length + ret))
+
+inductive Operand where
+  /-- a table: `cte` = it names a CTE (then the step is a `SubSelectStep` on the CTE result);
+  `dataConds` = for each `=` condition of its ON clause that `get_filters_from_join_conditions`
+  keeps as a data condition, the index (`TableInfo.index`) of the *other* table;
+  `pre` = results of already planned steps referenced from its fetch query (CTE result,
+  `Parameter(Result)` of nested selects pushed into its WHERE) -/
+  | table (cte : Bool) (dataConds : List Nat) (pre : List SNum)
+  /-- a model; `psize` = `partition_size` is among the USING parameters that apply to it -/
+  | predictor (ts psize : Bool)
+  /-- a sub-select / native query / data node in FROM, planned by `planner.plan_select` (`sub`) -/
+  | subselect (aliased : Bool) (sub : Planner)
+
+inductive JT where
+  | leaf (o : Operand)
+  | join (l r : JT)
+  /-- a FROM node that is neither `Identifier` nor `Join` after `replace_subselects` -/
+  | bad
+
+inductive Item where
+  | op (idx : Nat) (o : Operand)
+  | jn
 
 /-- `get_join_sequence`; the `Nat` is `len(self.tables)` (gives `TableInfo.index`) -/
 def getJoinSequence : JT → Nat → Except Err (List Item × Nat)
@@ -176,7 +179,6 @@ structure St where
   partition : Option Nat
   /-- `tables_fetch_step`: table index ↦ `step_num` of its fetch step -/
   fetched : List (Nat × SNum)
-  deriving Repr
 
 def modifyAt (f : Step → Step) : List Step → Nat → List Step
   | [], _ => []
@@ -246,18 +248,20 @@ def addFilterSteps (fixed : Bool) : List Nat → St → List SNum → St × List
       let (st', n) := addPlanStep fixed st .subselect [r] r false
       addFilterSteps fixed rest st' (acc ++ [n])
 
-def processTable (fixed : Bool) (idx : Nat) (cte : Bool) (dataConds pre : List Nat) (st : St) : St :=
+def processTable (fixed : Bool) (idx : Nat) (cte : Bool) (dataConds : List Nat) (pre : List SNum) (st : St) : St :=
   let (st1, ps) := addFilterSteps fixed dataConds st []
-  let (st2, n) := addPlanStep fixed st1 (if cte then .subselect else .fetch) (pre.map .top ++ ps) (.top 0) false
+  let (st2, n) := addPlanStep fixed st1 (if cte then .subselect else .fetch) (pre ++ ps) (.top 0) false
   { st2 with fetched := (idx, n) :: st2.fetched, stack := n :: st2.stack }
 
-def processSubselect (fixed : Bool) (aliased : Bool) (block : List Step) (ret : Nat) (st : St) :
-    Except Err St :=
-  let st1 := { st with plan := appendBlock st.plan block }
-  if aliased then
-    let (st2, n) := addPlanStep fixed st1 .subselect [.top (st.plan.length + ret)] (.top 0) false
-    .ok { st2 with stack := n :: st2.stack }
-  else .error (.planning "Subselect in join have to be aliased")
+def processSubselect (fixed : Bool) (aliased : Bool) (sub : Planner) (st : St) : Except Err St :=
+  -- step = self.planner.plan_select(item.sub_select)   (before the alias check)
+  match sub st.plan with
+  | .error e => .error e
+  | .ok (plan1, r) =>
+    if aliased then
+      let (st2, n) := addPlanStep fixed { st with plan := plan1 } .subselect [r] (.top 0) false
+      .ok { st2 with stack := n :: st2.stack }
+    else .error (.planning "Subselect in join have to be aliased")
 
 def processPredictor (fixed : Bool) (ts psize : Bool) (st : St) : Except Err St :=
   match st.stack with
@@ -277,7 +281,7 @@ def processJoin (fixed : Bool) (st : St) : Except Err St :=
 
 def stepItem (fixed : Bool) (st : St) : Item → Except Err St
   | .op idx (.table cte dc pre) => .ok (processTable fixed idx cte dc pre st)
-  | .op _ (.subselect al b r) => processSubselect fixed al b r st
+  | .op _ (.subselect al f) => processSubselect fixed al f st
   | .op _ (.predictor ts ps) => processPredictor fixed ts ps st
   | .jn => processJoin fixed st
 
@@ -301,28 +305,14 @@ def planJoinTables (fixed : Bool) (t : JT) (plan : List Step) : Except Err (List
       | x :: _ => .ok ((closePartition st).plan, x)
       | [] => .error (.internal "IndexError: pop from empty list")
 
-/-- a join query as `PlanJoinTablesQuery.plan` sees it -/
-structure JQ where
-  /-- blocks planned before the join sequence is processed, in order: CTE bodies (`plan_cte`), then
-  the nested selects of targets and WHERE (`find_selects`, `force=True`); the `Bool` says whether
-  the `Parameter(Result)` that replaces the nested select is still in the query given to the
-  final `QueryStep` -/
-  pre : List (List Step × Nat × Bool)
-  tree : JT
-  /-- the condition under which `plan` adds the `QueryStep` (any clause present or targets ≠ `*`) -/
-  wrap : Bool
-  deriving Repr
-
-def planPre : List (List Step × Nat × Bool) → List Step → List SNum → List Step × List SNum
-  | [], plan, acc => (plan, acc)
-  | (b, r, keep) :: rest, plan, acc =>
-    planPre rest (appendBlock plan b) (if keep then acc ++ [.top (plan.length + r)] else acc)
-
-def planJoin (fixed : Bool) (q : JQ) (plan : List Step) : Except Err (List Step × SNum) :=
-  match planJoinTables fixed q.tree (planPre q.pre plan []).1 with
+/-- `PlanJoinTablesQuery.plan`: the join sequence, then — when any clause is present or the targets are not
+`*` (`wrap`) — `QueryStep(query2, from_table=join_step.result)`; `params` = the `Parameter(Result)`s of nested
+selects that are still in `query2` -/
+def planJoin (fixed : Bool) (t : JT) (wrap : Bool) (params : List SNum) : Planner := fun plan =>
+  match planJoinTables fixed t plan with
   | .error e => .error e
   | .ok (plan1, j) =>
-    if q.wrap then .ok (addStep plan1 ⟨.query, none, j :: (planPre q.pre plan []).2, []⟩, .top plan1.length)
+    if wrap then .ok (addStep plan1 ⟨.query, none, j :: params, []⟩, .top plan1.length)
     else .ok (plan1, j)
 
 end MindsVerif.Plan
